@@ -51,6 +51,7 @@ type Prog struct {
 	byName map[string]*ssa.Function
 	// closures[f] = anonymous functions created (transitively) inside f, in source order
 	callers      map[*ssa.Function][]callSite // static call sites per module callee
+	mentioned    map[*ssa.Function]bool       // functions that occur as an operand anywhere (lazily filled)
 	nCalls       int
 	canonEnv     env // parameter substitution in effect while canonE runs
 	factMemo     map[*ssa.Function][]branchFact
